@@ -532,6 +532,12 @@ class TerminalExpr(CalculusFunction):
         dim = domain.dim
         if isinstance(expr, Add):
             args = [cls.eval(a, domain=domain) for a in expr.args]
+            # in 1D a vector may be lowered to a bare scalar (grad(h) -> dx(h)) or to a
+            # 1x1 matrix (F -> [[F[0]]]): when both occur in a sum, add them as 1x1 matrices
+            mats = [a for a in args if isinstance(a, (Matrix, ImmutableDenseMatrix))]
+            if mats and len(mats) < len(args) and all(m.shape == (1, 1) for m in mats):
+                args = [a if isinstance(a, (Matrix, ImmutableDenseMatrix))
+                        else ImmutableDenseMatrix([[a]]) for a in args]
             o = args[0]
             for arg in args[1:]:
                 o = o + arg
